@@ -134,3 +134,104 @@ theorem step_isFirstCut (isString : Bool) (amb : Nat) :
       exact ⟨by simp only [← this.1]; rfl, this.2, by trivial⟩
 
 end Uniseg.ChainStep
+
+namespace Uniseg.ChainStep
+open Uniseg Uniseg.Gen Uniseg.Chain
+
+/-! ## the `boundaries` value -/
+
+/-- what a caller decodes from `boundaries`: `& MaskLine`, `& MaskWord != 0`, `& MaskSentence != 0` -/
+def flagsOf (b : Nat) : Nat × Bool × Bool := (b &&& MaskLine, b &&& MaskWord != 0, b &&& MaskSentence != 0)
+
+theorem and_mask_mod (x m k : Nat) (hm : m < 2 ^ k) : x &&& m = (x % 2 ^ k) &&& m := by
+  have h1 : m &&& (2 ^ k - 1) = m := by rw [Nat.and_two_pow_sub_one_eq_mod, Nat.mod_eq_of_lt hm]
+  calc x &&& m = x &&& (m &&& (2 ^ k - 1)) := by rw [h1]
+    _ = (x &&& (2 ^ k - 1)) &&& m := by rw [Nat.and_comm m, Nat.and_assoc]
+    _ = (x % 2 ^ k) &&& m := by rw [Nat.and_two_pow_sub_one_eq_mod]
+
+/-- finite part: for every value `y < 16` of the low four bits -/
+theorem flags_low : ∀ y, y < 16 → ∀ n : Nat,
+    flagsOf (n * 16 + y) = (y &&& MaskLine, y &&& MaskWord != 0, y &&& MaskSentence != 0) := by
+  intro y hy n
+  simp only [flagsOf]
+  have e : ∀ m, m < 16 → (n * 16 + y) &&& m = y &&& m := by
+    intro m hm
+    rw [and_mask_mod (n * 16 + y) m 4 hm, and_mask_mod y m 4 hm]
+    congr 1; omega
+  rw [e MaskLine (by decide), e MaskWord (by decide), e MaskSentence (by decide)]
+
+theorem flags_mk (l width : Nat) (w s : Bool) (hl : l < 4) :
+    flagsOf (l ||| (width <<< ShiftWidth) ||| (if w then 1 <<< shiftWord else 0) ||| (if s then 1 <<< shiftSentence else 0)) =
+      (l, w, s) := by
+  have hreg : l ||| (width <<< ShiftWidth) ||| (if w then 1 <<< shiftWord else 0) ||| (if s then 1 <<< shiftSentence else 0) =
+      (l ||| (if w then 1 <<< shiftWord else 0) ||| (if s then 1 <<< shiftSentence else 0)) ||| (width <<< ShiftWidth) := by
+    ac_rfl
+  rw [hreg]
+  have hl' : l = 0 ∨ l = 1 ∨ l = 2 ∨ l = 3 := by omega
+  have key : ∀ y, y < 16 → flagsOf (y ||| (width <<< ShiftWidth)) = (y &&& MaskLine, y &&& MaskWord != 0, y &&& MaskSentence != 0) := by
+    intro y hy
+    rw [show y ||| (width <<< ShiftWidth) = width * 16 + y from or_shift width y 4 (by omega)]
+    exact flags_low y hy width
+  rcases hl' with rfl | rfl | rfl | rfl <;> cases w <;> cases s <;> exact key _ (by decide)
+
+theorem flags_end (width : Nat) : flagsOf (endBoundaries width) = (LineMustBreak, true, true) := by
+  unfold endBoundaries
+  have : LineMustBreak ||| (1 <<< shiftWord) ||| (1 <<< shiftSentence) ||| (width <<< ShiftWidth) =
+      LineMustBreak ||| (width <<< ShiftWidth) ||| (if true then 1 <<< shiftWord else 0) ||| (if true then 1 <<< shiftSentence else 0) := by
+    simp only [↓reduceIte]
+    ac_rfl
+  rw [this, flags_mk _ _ _ _ (by decide)]
+
+/-- what the verdict of the product run at a cut says about the three other segmentations -/
+def flagsHv : Option (Bool × Bool × Bool × Nat × Nat) → Nat × Bool × Bool
+  | none => (LineMustBreak, true, true)
+  | some v => (v.2.2.2.1, v.2.1, v.2.2.1)
+
+theorem line_verdict_lt (st : Option Nat) (r : Nat) (rest : List Nat) : (transitionLineBreakState st r rest).2 < 4 :=
+  Range.transL_verdict_lt _ _ _
+
+theorem stepLoop_flags (amb fp : Nat) : ∀ (rest : List Rune) (x : StepSt) (width : Nat), rest ≠ [] →
+    flagsOf (stepLoop amb fp x width rest).2.1 =
+      flagsHv ((firstCutG isBStep (runV trStep (some x) (runeVals rest))).2.map (·.2)) := by
+  intro rest
+  induction rest with
+  | nil => intro _ _ h; exact absurd rfl h
+  | cons r rest ih =>
+    intro x width _
+    simp only [stepLoop, runeVals, List.map_cons, runV, firstCutG, isBStep]
+    simp only [trStep, Option.map_some, runeVals]
+    by_cases hb : (transitionGraphemeState (some x.g) r.1).2.2 = true
+    · simp only [hb, ↓reduceIte, Option.map_some, flagsHv]
+      exact flags_mk _ _ _ _ (line_verdict_lt _ _ _)
+    · simp only [hb, Bool.false_eq_true, ↓reduceIte]
+      cases rest with
+      | nil => simp only [List.map_nil, runV, firstCutG, Option.map_none, flagsHv]; exact flags_end _
+      | cons r2 rest2 =>
+        have := ih ⟨(transitionGraphemeState (some x.g) r.1).1, (transitionWordBreakState (some x.w) r.1 (runeVals (r2 :: rest2))).1,
+          (transitionSentenceBreakState (some x.s) r.1 (runeVals (r2 :: rest2))).1,
+          (transitionLineBreakState (some x.l) r.1 (runeVals (r2 :: rest2))).1⟩
+          (widthStep amb fp width r.1 (transitionGraphemeState (some x.g) r.1).2.1) (by simp)
+        simp only [runeVals, List.map_cons] at this
+        simpa only [List.map_cons] using this
+
+/-- `Step`/`StepString` as a first-cut loop whose extra result, decoded by `flagsOf`, is the product
+run's verdict at the cut: (line verdict, word boundary, sentence boundary), and
+(LineMustBreak, true, true) at the end of the text -/
+theorem step_isFirstCut_flags (isString : Bool) (amb : Nat) :
+    IsFirstCut trStep isBStep (stepR isString amb) decS flagsOf flagsHv := by
+  intro r rest st
+  obtain ⟨h1, h2, _⟩ := step_isFirstCut isString amb r rest st
+  refine ⟨h1, h2, ?_⟩
+  cases rest with
+  | nil =>
+    cases isString <;> simp only [stepR, runeVals, List.map_nil, runV, firstCutG, Option.map_none, flagsHv] <;> exact flags_end _
+  | cons r2 rest2 =>
+    cases st with
+    | none =>
+      simp only [stepR, startG]
+      exact stepLoop_flags amb _ (r2 :: rest2) (trStep none r.1 (runeVals (r2 :: rest2))).1 _ (by simp)
+    | some s =>
+      simp only [stepR, startG]
+      exact stepLoop_flags amb _ (r2 :: rest2) (decS s) _ (by simp)
+
+end Uniseg.ChainStep
